@@ -383,7 +383,7 @@ def declared_unsorted(seq, ascending):
     return any(sc[j] < sc[j + 1] for j in range(len(sc) - 1))
 
 
-def run_rejection(bad_seq, others, position, ascending, path, reader_chunk, kind_frame=True):
+def run_rejection(bad_seq, others, position, ascending, path, reader_chunk):
     """One merge in which input number `position` holds bad_seq (file order, not sorted as declared)."""
     from mokapot.tabular_data import DataFrameReader
     seqs = list(others)
@@ -419,7 +419,6 @@ def check_rejection(tier, seed):
                "the merge must end in ValueError (any other outcome, a silently unsorted result included, is a "
                "violation); non-trivial = the unsorted step is not the first pair of the input or other inputs "
                "are present")
-    tasks = []
     j = 0
     seqs_all = [s for ln in range(2, max_len + 1) for s in itertools.product(range(len(VALS)), repeat=ln)]
     items = []
